@@ -1322,7 +1322,7 @@ class TupleParser:
         array_size = attrl.get('ARRAYSIZE', None)
         if array_size is not None:
             # Issue #1044: Clarify if hex support is needed.
-            array_size = int(array_size)
+            array_size = self.unpack_arraysize(tup_tree, array_size)
 
         scopes = None
         value = None
@@ -1516,7 +1516,7 @@ class TupleParser:
         array_size = attrl.get('ARRAYSIZE', None)
         if array_size is not None:
             # Issue #1044: Clarify if hex support is needed.
-            array_size = int(array_size)
+            array_size = self.unpack_arraysize(tup_tree, array_size)
 
         embedded_object = False
         if 'EmbeddedObject' in attrl or 'EMBEDDEDOBJECT' in attrl:
@@ -1723,7 +1723,7 @@ class TupleParser:
         array_size = attrl.get('ARRAYSIZE', None)
         if array_size is not None:
             # Issue #1044: Clarify if hex support is needed
-            array_size = int(array_size)
+            array_size = self.unpack_arraysize(tup_tree, array_size)
 
         qualifiers = self.list_of_matching(tup_tree, ('QUALIFIER',))
 
@@ -1762,7 +1762,7 @@ class TupleParser:
         array_size = attrl.get('ARRAYSIZE', None)
         if array_size is not None:
             # Issue #1044: Clarify if hex support is needed
-            array_size = int(array_size)
+            array_size = self.unpack_arraysize(tup_tree, array_size)
 
         qualifiers = self.list_of_matching(tup_tree, ('QUALIFIER',))
 
@@ -2392,6 +2392,22 @@ class TupleParser:
                     for data in raw_val]
 
         return self.unpack_single_value(raw_val, valtype)
+
+    def unpack_arraysize(self, tup_tree, data):
+        """
+        Unpack the value of an ARRAYSIZE attribute and return it as an integer.
+
+        Raises CIMXMLParseError if the value is not a decimal integer.
+        """
+        try:
+            return int(data)
+        except ValueError:
+            new_exc = CIMXMLParseError(
+                _format("Element {0!A} has an invalid value for its "
+                        "ARRAYSIZE attribute: {1!A}", name(tup_tree), data),
+                conn_id=self.conn_id)
+            new_exc.__cause__ = None
+            raise new_exc
 
     def unpack_single_value(self, data, cimtype):
         """
